@@ -70,9 +70,13 @@ def gen_sources(outdir, Ls):
     for L in Ls:
         for c in (0, 1): d.append(f"    case {L*2+c}: return KernelCfg<{L},{'true' if c else 'false'}>::jacobianflat(t, ncell, ns);")
     d.append('    default: return "no-cfg"; } }')
-    d.append('  if (cmd == "luflat") { auto n = t.nat(); auto csc = t.nat(); auto L = t.nat(); auto blocks = t.nat(); switch (L * 2 + csc) {')
+    d.append('  if (cmd == "luflat") { auto kind = t.nat(); auto n = t.nat(); auto csc = t.nat(); auto L = t.nat(); auto blocks = t.nat(); switch (L * 2 + csc) {')
     for L in Ls:
-        for c in (0, 1): d.append(f"    case {L*2+c}: return KernelCfg<{L},{'true' if c else 'false'}>::luflat(t, n, blocks);")
+        for c in (0, 1): d.append(f"    case {L*2+c}: return KernelCfg<{L},{'true' if c else 'false'}>::luflat(t, kind, n, blocks);")
+    d.append('    default: return "no-cfg"; } }')
+    d.append('  if (cmd == "alphaflat") { auto n = t.nat(); auto csc = t.nat(); auto L = t.nat(); auto blocks = t.nat(); switch (L * 2 + csc) {')
+    for L in Ls:
+        for c in (0, 1): d.append(f"    case {L*2+c}: return KernelCfg<{L},{'true' if c else 'false'}>::alphaflat(t, n, blocks);")
     d.append('    default: return "no-cfg"; } }')
     d.append('  if (cmd == "lumix") { auto kind = t.nat(); auto n = t.nat(); auto csc = t.nat(); auto cscL = t.nat(); auto cscU = t.nat(); auto L = t.nat(); auto blocks = t.nat(); switch (L * 2 + csc) {')
     for L in Ls:
